@@ -1,6 +1,7 @@
 package types
 
 import (
+	"bytes"
 	"encoding/binary"
 	"errors"
 	"fmt"
@@ -1822,12 +1823,18 @@ func (s *ServicesStatistics) Decode(d *Decoder) error {
 
 	// make the map
 	services := make(ServicesStatistics)
+	var prevKey ServiceID
 
 	for i := uint64(0); i < length; i++ {
 		var serviceID ServiceID
 		if err = serviceID.Decode(d); err != nil {
 			return err
 		}
+		// keys are written in ascending order without duplicates; anything else is not canonical
+		if i > 0 && serviceID <= prevKey {
+			return errors.New("dictionary keys are not in strictly ascending order")
+		}
+		prevKey = serviceID
 
 		var serviceActivityRecord ServiceActivityRecord
 		if err = serviceActivityRecord.Decode(d); err != nil {
@@ -2660,12 +2667,18 @@ func (a *AlwaysAccumulateMap) Decode(d *Decoder) error {
 
 	// make the map with length
 	*a = make(AlwaysAccumulateMap, length)
+	var prevKey ServiceID
 
 	for i := uint64(0); i < length; i++ {
 		var key ServiceID
 		if err = key.Decode(d); err != nil {
 			return err
 		}
+		// keys are written in ascending order without duplicates; anything else is not canonical
+		if i > 0 && key <= prevKey {
+			return errors.New("dictionary keys are not in strictly ascending order")
+		}
+		prevKey = key
 
 		var val Gas
 		if err = val.Decode(d); err != nil {
@@ -2765,11 +2778,18 @@ func (l *LookupMetaMapEntry) Decode(d *Decoder) error {
 
 	// Init the map
 	*l = make(LookupMetaMapEntry, length)
+	var prevKey LookupMetaMapkey
 	for i := uint64(0); i < length; i++ {
 		var key LookupMetaMapkey
 		if err = key.Decode(d); err != nil {
 			return err
 		}
+		// keys are written in ascending order without duplicates; anything else is not canonical
+		if i > 0 && (bytes.Compare(prevKey.Hash[:], key.Hash[:]) > 0 ||
+			(prevKey.Hash == key.Hash && prevKey.Length >= key.Length)) {
+			return errors.New("dictionary keys are not in strictly ascending order")
+		}
+		prevKey = key
 
 		timeSlotSetSize, err := d.DecodeLength()
 		if err != nil {
@@ -2810,12 +2830,18 @@ func (p *PreimagesMapEntry) Decode(d *Decoder) error {
 
 	// Init the map
 	*p = make(PreimagesMapEntry, length)
+	var prevKey OpaqueHash
 
 	for i := uint64(0); i < length; i++ {
 		var key OpaqueHash
 		if err = key.Decode(d); err != nil {
 			return err
 		}
+		// keys are written in ascending order without duplicates; anything else is not canonical
+		if i > 0 && bytes.Compare(prevKey[:], key[:]) >= 0 {
+			return errors.New("dictionary keys are not in strictly ascending order")
+		}
+		prevKey = key
 
 		var val ByteSequence
 		if err = val.Decode(d); err != nil {
@@ -2914,6 +2940,7 @@ func (a *ServiceAccountState) Decode(d *Decoder) error {
 
 	// Init the map
 	*a = make(ServiceAccountState, length)
+	var prevKey ServiceID
 
 	for i := uint64(0); i < length; i++ {
 		// Decode key (ServiceID)
@@ -2921,6 +2948,11 @@ func (a *ServiceAccountState) Decode(d *Decoder) error {
 		if err = key.Decode(d); err != nil {
 			return err
 		}
+		// keys are written in ascending order without duplicates; anything else is not canonical
+		if i > 0 && key <= prevKey {
+			return errors.New("dictionary keys are not in strictly ascending order")
+		}
+		prevKey = key
 
 		// Decode value (ServiceAccount)
 		var value ServiceAccount
@@ -3380,11 +3412,18 @@ func (a *AccumulatedServiceOutput) Decode(d *Decoder) error {
 
 	// Initialize the map with the given length
 	*a = make(AccumulatedServiceOutput, length)
+	var prevKey AccumulatedServiceHash
 	for i := uint64(0); i < length; i++ {
 		var key AccumulatedServiceHash
 		if err = key.Decode(d); err != nil {
 			return err
 		}
+		// keys are written in ascending order without duplicates; anything else is not canonical
+		if i > 0 && (key.ServiceID < prevKey.ServiceID ||
+			(key.ServiceID == prevKey.ServiceID && bytes.Compare(prevKey.Hash[:], key.Hash[:]) >= 0)) {
+			return errors.New("dictionary keys are not in strictly ascending order")
+		}
+		prevKey = key
 
 		// Put the key in the map
 		(*a)[key] = true // The value is always true in this context
